@@ -383,6 +383,15 @@ func (c *VC) ghostBuiltin(st *State, name string, call *ast.CallExpr) []*Term {
 		}
 		c.unsupportedf(call.Pos(), "arg() outside a callsite assertion")
 		return []*Term{c.fresh("arg", c.sortOf(c.typeOf(call)))}
+	case "recv":
+		// recv[T](): the receiver value of the method call a callsite assertion is attached to
+		if c.siteCall != nil {
+			if se, ok := ast.Unparen(c.siteCall.Fun).(*ast.SelectorExpr); ok {
+				return []*Term{c.eval(c.siteState, se.X)}
+			}
+		}
+		c.unsupportedf(call.Pos(), "recv() outside a callsite assertion on a method call")
+		return []*Term{c.fresh("recv", c.sortOf(c.typeOf(call)))}
 	case "identical":
 		// the two values are the same value of the model (for strings: same snapshot, which
 		// implies equal content; used where an uninterpreted spec function must be congruent)
